@@ -10,7 +10,7 @@ TRUST = ("rustc's MIR construction, trait resolution and const evaluation (night
 
 CLAIMED = {
  "C04": dict(technique="offset provenance by backward slicing to a fixed point over parameters, offset-holding fields and helper functions + slice/offset agreement of fragment constructions + token tiling formula",
-             text="Decides that every offset reaching a Span/Text/TextFragment constructor is built only from token and text boundaries, string lengths and search results (each ± constant, subtraction, cast or foreign index is a reviewed entry), that fragments created from input slices carry the slice's own lower bound, and that token spans are (consumed before, consumed after += lexer length). The parser is started on the caller's own string (no stripped or trimmed copy), so offsets index what the caller holds. This rules out the ±1-byte class that ASCII tests cannot see; start <= end, bounds, event order and successful rendering follow only under the assumption that the lexer advances by whole chars.",
+             text="Decides that every offset reaching a Span/Text/TextFragment constructor is built only from token and text boundaries, string lengths and search results (each ± constant, subtraction, cast or foreign index is a reviewed entry), that fragments created from input slices carry the slice's own lower bound, and that token spans are (consumed before, consumed after += lexer length). Reviewed ±1 adjustments carry machine-checked requirements on the code they rely on (e.g. the note offset is taken right after `(`). The parser is started on the caller's own string (no stripped or trimmed copy), so offsets index what the caller holds. This rules out the ±1-byte class that ASCII tests cannot see; start <= end, bounds, event order and successful rendering follow only under the assumption that the lexer advances by whole chars.",
              ref="DESIGN.md §5 C04"),
  "C08": dict(technique="constant-argument and dominance rule for Linear values + per-outcome value lineage of Scale::scale + formula shape of linear_scale / scale_to_servings + field-to-field move lineage of every scaled structure",
              text="Decides which values can be Linear (only ingredient, non-text, non-locked quantities), that Fixed and failed values pass through scale() untouched and default_scale returns the written value, that number / range start / range end are each multiplied by the factor and the servings factor is target / first declared servings, that everything scaling must not touch is a move of the same-named input field and outcome vectors line up with their components, that cookware is never fitted, and that the declared servings order is preserved. That a fitted range has both ends converted, that a fitted/converted quantity gets number and unit in one write from the same conversion result, and that best units come from the designated list are decided (shared with C09); that fitting preserves the amount otherwise is C09/C12 material; finiteness is not decided.",
@@ -19,7 +19,7 @@ CLAIMED = {
              text="Decides that reference kinds, indices, names, amounts, units and notes of the simplified recipe are taken from the same-kind / same-named parts of the core recipe, that dereferencing uses the same-kind vector with the given index, that grouping keys carry the value's own variant, that merging looks the bucket up by the incoming key and adds incoming into stored field by field, and that combine_ingredients is the selection over all indices folding each once. Numerical sums and map order are not decided.",
              ref="DESIGN.md §5 C19"),
  "C07": dict(technique="catalogue inventory of diagnostic constructions + forward def-use to a sink + stage/severity constants + shape of the parse-error short circuit and of the validity predicate",
-             text="Weak: decides that no catalogued check was deleted or downgraded (per-module floors), that every constructed diagnostic reaches a sink with the matching severity and the stage of its module, that a parse-stage error returns no output and keeps only parse diagnostics while other paths keep the output, that validity is has_output and no errors, that parsed fractions pass the zero-denominator rejection, and that the out-of-range test of an intermediate reference is the emptiness of the step-filtered n-th lookup / a comparison with the number of finished sections, and that the emptiness predicate behind the empty-name/unit/key/value checks examines every fragment. It does not decide that a check fires on the right condition, that well-formed recipes are diagnostic-free, or where labels point.",
+             text="Weak: decides that no catalogued check was deleted or downgraded (per-module floors), that every constructed diagnostic reaches a sink with the matching severity and the stage of its module, that a parse-stage error returns no output and keeps only parse diagnostics while other paths keep the output, that validity is has_output and no errors, that parsed fractions pass the zero-denominator rejection, and that the out-of-range test of an intermediate reference is the emptiness of the step-filtered n-th lookup / a comparison with the number of finished sections, and that the emptiness predicate behind the empty-name/unit/key/value checks examines every fragment, and that the primary label stays labels[0] (constructors start with it, the list is only pushed to). It does not decide that a check fires on the right condition, that well-formed recipes are diagnostic-free, or where labels point.",
              ref="DESIGN.md §5 C07"),
  "C13": dict(technique="sibling agreement between the parse-time validator and the accessors (call-graph reach per StdKey arm) + integer arithmetic discipline + mutation/ordering rule on the servings list",
              text="Partial: decides that each standard key is validated at parse time by the interpretation function its accessor uses and that both metadata styles run it and store servings; that the duration parsers' integer arithmetic is the reviewed, checked set; that the servings list is returned in declaration order and its duplicate test runs on a sorted copy; that tags enter the result only under the non-empty and not-yet-present tests; that parse-time validation never goes through an error-discarding accessor. What each parser accepts is not decided.",
@@ -28,7 +28,7 @@ CLAIMED = {
              text="Weak: decides that both entry points build the same parser, share the entry parser metadata_entry, emit every entry it returns, run the same analysis with the same extensions/converter/options, and that the metadata result is the untouched metadata field. That both scanners decide 'a `>>` at the start of a line' from the token stream in the same way (previous token is a Newline token, peeked token is MetadataStart; lines end at the Newline token and nowhere else, never judged from the input text) is decided; that they select the same lines in every other respect (multi-line blocks, config keys under MODES) is not.",
              ref="DESIGN.md §5 C14"),
  "C06": dict(technique="pairing / ordering / lineage rules on the MIR of the analysis collector (must-pass-through, edge dominance, value lineage by backward slicing)",
-             text="Decides structural necessary conditions of referential consistency: step item indices come from the same-kind collector method which returns len(table)-1 of the table it pushed to; content and location tables are pushed in lock-step; references are set from a search that excludes references, and listed back exactly once before the push; the step counter is reset per section and bumped per pushed step; empty sections are not pushed; intermediate references are bounds-checked and step-filtered; every component made a reference also receives the REF modifier and is reported to the caller (which adds the back link); text items are built only under a non-empty test of their value (analysis side) or of the parsed text (step parser side). Name equality, document order and emptiness of steps are not decided.",
+             text="Decides structural necessary conditions of referential consistency: step item indices come from the same-kind collector method which returns len(table)-1 of the table it pushed to; content and location tables are pushed in lock-step; references are set from a search that excludes references, and listed back exactly once before the push; the step counter is reset per section and bumped per pushed step; empty sections are not pushed; intermediate references are bounds-checked and step-filtered; every component made a reference also receives the REF modifier and is reported to the caller (which adds the back link); a timer without a name is built only where its quantity is known to be present; text items are built only under a non-empty test of their value (analysis side) or of the parsed text (step parser side). Name equality, document order and emptiness of steps are not decided.",
              ref="DESIGN.md §5 C06"),
  "C10": dict(technique="must-pass-through store analysis of GroupedQuantity::add / GroupedValue::add, field-coverage of readers, insert-result usage, lineage of the listing pipeline",
              text="Decides that no path through the grouping functions drops its argument, that every reader of a grouped quantity covers all four stores, that quantity-map inserts cannot silently overwrite (one reviewed finding), that a text value can never be stored into a running total, and that totals are built from the definition plus its referenced_from entries, definitions only, listed-only, keyed by display name. Numerical sums and fit() are not decided.",
@@ -46,7 +46,7 @@ CLAIMED = {
              text="Decides that no type reachable from a recipe uses a serde construct known to break JSON round trips (derive pairing, one-sided attributes, skip/skip_serializing_if without default, internal tagging over non-map variants, flatten collisions, untagged ambiguity, duplicate names, non-string map keys, nested Options, borrowed strings, manual impls). Necessary conditions of round-trip equality; serde_json's own behaviour is trusted.",
              ref="DESIGN.md §5 C15"),
  "C16": dict(technique="C03 inventories restricted to the builder's call-graph reach + insert-result usage + path-sensitive guard reachability + dominance/ordering rules on the extend and finish pipeline + data consistency check of units.toml + build.rs key agreement",
-             text="Partial: decides that the builder's explicit failure sites / arithmetic / loops are the reviewed ones, that every index insertion is duplicate-checked or a reviewed override, that empty best lists cannot reach the store, that the shipped units file is collision-free and self-consistent, that build.rs reads every key the file uses, that re-indexing removes old keys before an edit and re-adds after, that aliases of regenerated units are carried over, that generated units are regenerated whole, and that finish() computes best lists and fraction settings only after the extend layers were applied. Every join takes data and precedence from the same incoming layer into the same-named field, and the two join helpers implement Before/After/Override arm by arm. Threshold values are not decided.",
+             text="Partial: decides that the builder's explicit failure sites / arithmetic / loops are the reviewed ones, that every index insertion is duplicate-checked or a reviewed override, that empty best lists cannot reach the store, that the shipped units file is collision-free and self-consistent, that build.rs reads every key the file uses, that re-indexing removes old keys before an edit and re-adds after, that aliases of regenerated units are carried over, that generated units are regenerated whole, and that finish() computes best lists and fraction settings only after the extend layers were applied. Every join takes data and precedence from the same incoming layer into the same-named field, the two join helpers implement Before/After/Override arm by arm, and every quantity group's best list is examined whether or not the group declares units. Threshold values are not decided.",
              ref="DESIGN.md §5 C16"),
  "C02": dict(technique="gate-dominance analysis on MIR (edge dominators, bool::then closures, call-site propagation) + confinement inventory of Extensions reads + argument lineage + const-evaluated bit layout",
              text="Decides four structural necessary conditions of extension independence: each construct that implements an extension's special reading is dominated by the flag-set outcome of a test of its own flag; the control-relevant reads of an Extensions value are exactly the reviewed gate sites; the extension set handed to sub-parsers and the analysis is the configured one; flag bits are disjoint as documented; every text item of a step, in the INLINE_QUANTITIES arm and in the plain arm, is cut from the same joined text. It does not decide that gated code is a no-op on core syntax (a parse result).",
